@@ -193,6 +193,8 @@ pub open spec fn whiteout_marked<L: FileSystem>(l: &L, ctx: Context, ino: u64) -
 pub open spec fn sp_absent(r: Result<Entry>) -> bool {
     (r is Err && r->Err_0.os_code() == Some(2i32)) || (r is Ok && r->Ok_0.inode == 0 && !sp_whiteout(r->Ok_0.attr))
 }
+// file sizes are off_t values (assumption A-FILESIZE)
+#[verifier::external_body] pub proof fn axiom_file_size<L: FileSystem>(l: &L, ino: u64) ensures l.s_content(ino).len() <= 0x7fff_ffff_ffff_ffff { }
 pub open spec fn err_is(r_err: Error, code: i32) -> bool { r_err.os_code() == Some(code) }
 // std::fs::File as the overlay uses it for copy-up: a byte sequence and a cursor
 #[verifier::external_body] pub struct File { _p: u8 }
